@@ -393,6 +393,15 @@ def _nesting(repo, rep):
         L.g_live(rep, "R01.9", m, L.emission(repo, m.qualname))
     if n < 6:
         raise AnalysisError("statement emitters vanished (%d found)" % n)
+    # the per-node identity those locals embed is id(<names object>): it is
+    # per element only if the statement parser returns a new object per call
+    from .c05 import names_object_fresh
+    okf, detail, pf = names_object_fresh(repo)
+    rep.check(okf, "R01.9", pf.qualname, "the define/repeat parser returns a "
+              "fresh result per element (no memoisation): two nested "
+              "elements with the same clause text get different backup "
+              "locals", construct="fresh-names-object", where=L.where(pf),
+              detail=detail)
 
 
 def _skeletons(repo, rep):
@@ -821,6 +830,50 @@ def _parsers(repo, rep):
     rep.check(w == {"text", "structure"}, "R01.8", "chameleon.tal.SUBST_RE",
               "content/replace/on-error accept the keywords text and "
               "structure", construct="subst-keywords", detail=str(sorted(w)))
+    def keyword_separator(name):
+        """the optional '(keyword)\\s+' prefix: what follows the keyword
+        group inside its optional group must be at least one white-space
+        character -- 'texts' / 'localx' are not keyword + rest"""
+        rc_ = repo.const("chameleon.tal", name)
+        pat = rc_.pattern if isinstance(rc_.pattern, str) else \
+            rc_.pattern.decode("latin-1")
+        tree = list(rx.parse(pat, rc_.flags))
+        C = rx.C
+
+        def find(items):
+            items = list(items)
+            for i, (op, av) in enumerate(items):
+                if op is C.SUBPATTERN and av[0] is not None:
+                    # first capturing group: look at its right neighbour
+                    nxt = items[i + 1] if i + 1 < len(items) else None
+                    return nxt
+                sub = None
+                if op is C.SUBPATTERN:
+                    sub = find(av[3])
+                elif op in (C.MAX_REPEAT, C.MIN_REPEAT):
+                    sub = find(av[2])
+                elif op is C.BRANCH:
+                    for alt in av[1]:
+                        sub = find(alt)
+                        if sub is not None:
+                            break
+                if sub is not None:
+                    return sub
+            return None
+        nxt = find(tree)
+        if nxt is None or nxt[0] not in (C.MAX_REPEAT, C.MIN_REPEAT):
+            return False, str(nxt)
+        lo, hi, body = nxt[1]
+        b = list(body)
+        space = len(b) == 1 and b[0][0] is C.IN and any(
+            o is C.CATEGORY and "SPACE" in str(a) for o, a in b[0][1])
+        return (lo >= 1 and space), "min %s, whitespace %s" % (lo, space)
+    for nm in ("SUBST_RE", "DEFINE_RE"):
+        oks, detail = keyword_separator(nm)
+        rep.check(oks, "R01.8", "chameleon.tal." + nm, "a statement keyword "
+                  "is separated from what follows by at least one "
+                  "white-space character", construct="keyword-separator:" +
+                  nm, detail=detail)
     import re as _re
     import re._parser as _rp
 
